@@ -134,8 +134,14 @@ def run_case(ctx, res, p):
     ref_mean = mu + Kqb @ w
     scale = max(np.max(np.abs(ref_mean)), abs(mu), 1e-300)
     dev_formula = np.max(np.abs((np.exp(ref_mean) if variant == "exp" else ref_mean) - out)) / max(np.max(np.abs(out)), 1e-300)
-    res.dev("mean_formula_rel", dev_formula)
-    if dev_formula > 1e-9:
+    # rounding of the dot product mu + sum_j k_j w_j is amplified by cancellation when the weights are large
+    W2a = np.abs(cu.as2d(w))
+    amp = float(np.max(np.abs(Kqb) @ W2a) + abs(mu)) / max(float(np.max(np.abs(ref_mean))), 1e-300)
+    if variant == "exp":
+        amp *= max(1.0, float(np.max(np.abs(ref_mean))))     # exp turns absolute into relative error
+    tol_formula = 1e3 * EPS * amp + 1e-13
+    res.dev("mean_formula_over_tol", dev_formula / tol_formula)
+    if dev_formula > tol_formula:
         res.oracle_fail("prediction is not mu + k(Xq, basis) @ weights", p, detail={"rel": dev_formula},
                         signature="C01:mean-formula")
     # (b) weights solve the stated normal equations
@@ -153,6 +159,9 @@ def run_case(ctx, res, p):
         M = Lnp.T
         rhs = cu.as2d(Z)
     condM = np.linalg.cond(M)
+    if family == "lm":
+        # the DTC route factorises K_uu + jitter I first: its conditioning enters the rounding error too
+        condM = max(condM, np.linalg.cond(Kbb + jitter * np.eye(Kbb.shape[0])))
     res.dev("cond_max", condM)
     nontrivial = bool(np.any(np.abs(raw - mu) > 1e-12 * max(1.0, abs(mu))))
     res.case(canon, nontrivial, sample)
@@ -170,11 +179,15 @@ def run_case(ctx, res, p):
         lo_, hi_ = co.interval(tree, A_, B_)
         wK = max(wK, float(np.max(hi_ - lo_)))
     res.dev("kernel_interval_width", wK)
-    pscale = max(np.max(np.abs(pred_ref - mu)), 1e-300)
+    # scale of the comparison: the prediction's deviation from mu, floored (query points far from every basis
+    # point predict mu itself, and a relative deviation of rounding noise is meaningless)
+    pscale = max(np.max(np.abs(pred_ref - mu)), 1e-6 * np.max(np.abs(Kqb)) * np.max(np.abs(Wref)) + 1e-300,
+                 1e-9 * abs(mu))
     wnorm = max(float(np.max(np.sum(np.abs(Wref), axis=0))), float(np.max(np.sum(np.abs(W2), axis=0))))
     tol = 1e3 * EPS * condM + 1e-10 + 20 * wK * wnorm * (1 + condM) * (Kbb.shape[0] if family == "lm" else 1) / pscale
     # error amplification from weights to predictions is bounded by cond(M); a-posteriori tolerance
-    dev = np.max(np.abs(pred_ref - cu.as2d(raw).reshape(pred_ref.shape))) / pscale
+    afloor = 100 * EPS * (abs(mu) + 1.0)     # absolute rounding floor of mu + (...) and of log(exp(.))
+    dev = max(np.max(np.abs(pred_ref - cu.as2d(raw).reshape(pred_ref.shape))) - afloor, 0.0) / pscale
     res.dev("normal_eq_pred_rel_over_tol", dev / tol)
     if dev > tol and tol < 1e-2:
         res.oracle_fail("weights do not solve the stated regularised normal equations", p,
@@ -197,8 +210,8 @@ def run_case(ctx, res, p):
     oscale = max(np.max(np.abs(out)), 1e-300)
     d1 = np.max(np.abs(outp - out[perm])) / oscale
     d2 = np.max(np.abs(single - out[:min(q, 3)])) / oscale
-    res.dev("batch_independence_rel", max(d1, d2))
-    if max(d1, d2) > 1e-11:
+    res.dev("batch_independence_over_tol", max(d1, d2) / tol_formula)
+    if max(d1, d2) > tol_formula:
         res.oracle_fail("a query row's value depends on the other rows / their order", p,
                         detail={"perm": float(d1), "single": float(d2)}, signature="C01:batch")
     # ---------------- correspondence
@@ -207,7 +220,7 @@ def run_case(ctx, res, p):
             res.corr_fail(f"model refuses ({mod['status']}) what the implementation accepts", p)
             return
         mm = mod["mean"].reshape(cu.as2d(raw).shape)
-        devm = np.max(np.abs(mm - cu.as2d(raw))) / pscale if pscale > 0 else 0.0
+        devm = max(np.max(np.abs(mm - cu.as2d(raw))) - afloor, 0.0) / pscale
         res.dev("model_vs_impl_mean_over_tol", devm / tol)
         Kw_model = Kqb @ mod["weights"]
         if devm > tol and tol < 1e-2:
